@@ -195,6 +195,7 @@ class Sem:
     def __init__(s, prog, conf, ctx, pay='P', probe=None):
         s.prog = prog; s.c = conf; s.ctx = ctx; s.pay = pay; s.probe = probe
         s.comp = []          # pending completion checks: (machine, region, state name)
+        s.in_flux = set()    # machines whose own entry / exit cascade is running
         ctx.sem = s
 
     # ---- logging helpers
@@ -216,6 +217,15 @@ class Sem:
             m = s.prog.root
             for r, name in enumerate(s.c.m[m.name]['active']):
                 s.ctx.log.append(('F', 100 + r, m.states[name].idx))
+        elif s.probe == 'ids_all':
+            # every machine level, active or not (an inactive submachine keeps the ids it was left in)
+            # C19 speaks about the region a transition happens in: the ids of a level are compared only while that level is
+            # active and not itself in the middle of being entered or exited (then: logged, value not compared)
+            act = s.c.active_machines()
+            for m in s.prog.machines:
+                for r, name in enumerate(s.c.m[m.name]['active']):
+                    spec = m in act and m.name not in s.in_flux
+                    s.ctx.log.append(('F', 100 + 8 * m.idx + r, m.states[name].idx if spec else ANY))
         elif s.probe == 'ids':
             for m in s.c.active_machines():
                 for r, name in enumerate(s.c.m[m.name]['active']):
@@ -265,6 +275,7 @@ class Sem:
         return False
 
     def enter_machine(s, m, pay, explicit=None, evt=None, own_pay=None):
+        s.in_flux.add(m.name)
         try:
             s.c.unspec.discard(m.name)
             s.enter_machine_(m, pay, explicit, evt, own_pay)
@@ -272,6 +283,8 @@ class Sem:
             # an entry cascade aborted by an exception: what the ids inside the target submachine are is not specified
             s.c.unspec.add(m.name)
             raise
+        finally:
+            s.in_flux.discard(m.name)
 
     def enter_machine_(s, m, pay, explicit=None, evt=None, own_pay=None):
         cm = s.c.m[m.name]
@@ -298,9 +311,13 @@ class Sem:
 
     def exit_machine(s, m, pay):
         cm = s.c.m[m.name]
-        for r in range(len(m.regions)):
-            s.exit_state(m, cm['active'][r], pay)
-        s.L('X', m.self_idx, pay)
+        s.in_flux.add(m.name)
+        try:
+            for r in range(len(m.regions)):
+                s.exit_state(m, cm['active'][r], pay)
+            s.L('X', m.self_idx, pay)
+        finally:
+            s.in_flux.discard(m.name)
         cm['hist'] = list(cm['active'])
 
     def exit_state(s, m, name, pay):
